@@ -12,7 +12,7 @@ import (
 // PlusKinds are the features of the wider class W+ (C09 only).
 var PlusKinds = []string{"ptrIntoOperation", "ptrNestedInline", "ptrMissingPosition", "ptrInPtrTarget", "ptrCycle", "auxBackRef", "collisionWithRefs",
 	"danglingLocalDef", "danglingRemoteFile", "danglingRemoteFragment", "recursiveContainers", "wholeDocSchema", "paramRefToNonParam", "responseRefToNonResponse",
-	"ptrToNonSchema", "refWithSiblings", "absoluteSelfRef", "itemsRef", "deepNesting", "pathItemRefDangling", "selfRefDefinition", "ptrToSelf", "sharedRefToRemote", "sharedRefToMissing", "wholeDocPointerNested", "httpRemote", "ptrTailIntoCycle", "collidingRecursiveImports", "percentNames"}
+	"ptrToNonSchema", "refWithSiblings", "absoluteSelfRef", "itemsRef", "deepNesting", "pathItemRefDangling", "selfRefDefinition", "ptrToSelf", "sharedRefToRemote", "sharedRefToMissing", "wholeDocPointerNested", "httpRemote", "ptrTailIntoCycle", "collidingRecursiveImports", "percentNames", "refSiblingsCollidingRemote"}
 
 // MustErrorKinds: planted at a position reachable from an operation, Flatten must return an error (ContinueOnError off).
 var MustErrorKinds = map[string]bool{"ptrMissingPosition": true, "ptrCycle": true, "ptrTailIntoCycle": true, "danglingRemoteFile": true, "danglingRemoteFragment": true, "sharedRefToMissing": true}
@@ -143,6 +143,34 @@ func (b *Bundle) Plus(kind string) {
 			b.Def("PcHost"+k, jx.Obj{"type": "object", "description": b.lbl("pc"), "properties": jx.Obj{n: b.Obj()}})
 			b.useRef("#/definitions/PcHost"+k+"/properties/"+jx.EscTok(n), holder)
 			b.useRef("#/definitions/PcHost"+k, "schema")
+		}
+	case "refSiblingsCollidingRemote":
+		// a $ref to a colliding remote definition next to a sibling keyword that holds a $ref to another colliding one:
+		// merging the first one back drops the sibling, whose key is still queued
+		x, y := "sx"+k, "sy"+k
+		b.Def(x, jx.Obj{"type": "string", "description": b.lbl("rx")})
+		b.Def(y, jx.Obj{"type": "string", "description": b.lbl("ry")})
+		shapes := []jx.Obj{
+			{"type": "array", "description": b.lbl("tu"), "items": jx.Arr{jx.Obj{"type": "string"}, jx.Obj{"type": "integer"}}},
+			{"type": "object", "description": b.lbl("mp"), "additionalProperties": true},
+			b.Obj(),
+			{"type": "array", "description": b.lbl("ar"), "items": jx.Obj{"type": "string"}},
+		}
+		v := b.Variant
+		if v < 0 {
+			v = b.rng.IntN(8)
+		}
+		b.AuxDef("sub/a.json", x, shapes[v%4])
+		b.AuxDef("sub/a.json", y, b.Obj())
+		sib := []string{"items", "additionalProperties", "items", "additionalProperties"}[v%4]
+		if v >= 4 {
+			sib = "not"
+		}
+		inner := jx.Obj{"$ref": "sub/a.json#/definitions/" + x, sib: jx.Obj{"$ref": "sub/a.json#/definitions/" + y}}
+		b.Def("sibA"+k, b.Hold(Pick(b.rng, []string{"additionalProperties", "items", "property", "allOf"}), inner, 1, ""))
+		b.useRef("#/definitions/sibA"+k, "schema")
+		if Chance(b.rng, 50) {
+			b.useRef("sub/a.json#/definitions/"+y, holder)
 		}
 	case "auxBackRef":
 		b.Def("Back"+k, b.Obj())
